@@ -295,7 +295,15 @@ func c19Gen(t *rapid.T) C19Case {
 			c.Recs[i].Labels[s.Labels[0].Name] = string(rapid.SliceOfN(rapid.Byte(), 0, 5).Draw(t, "rawlabelbytes"))
 		}
 	}
-	c.Q = datagen.GenLogQueryFor(t, s, c.Recs, datagen.QueryOpts{MaxStages: 4, AllowDistinct: true, AllowParsers: true, AllowRewrite: true, Light: rapid.Bool().Draw(t, "light")})
+	sorted := append([]model.Rec(nil), c.Recs...)
+	model.SortRecs(sorted)
+	for attempt := 0; attempt < 3; attempt++ {
+		c.Q = datagen.GenLogQueryFor(t, s, c.Recs, datagen.QueryOpts{MaxStages: 4, AllowDistinct: true, AllowParsers: true, AllowRewrite: true, Light: rapid.Bool().Draw(t, "light")})
+		want, err := model.EvalLog(&c.Q, sorted)
+		if err != nil || len(want) > 0 || len(c.Recs) == 0 || rapid.IntRange(0, 3).Draw(t, "accept-empty") == 0 {
+			break
+		}
+	}
 	// "| drop a" directly followed by a line filter "!= x" reads as the matcher a!="x":
 	// q never ends with a bare drop/keep.
 	for n := len(c.Q.Stages); n > 0; n = len(c.Q.Stages) {
@@ -315,6 +323,32 @@ func c19Gen(t *rapid.T) C19Case {
 				*dst = st
 				break
 			}
+		}
+	}
+	// Labels holding composite values (nested JSON objects / arrays exposed by "| json").
+	hasMeta := false
+	for _, f := range s.Fields {
+		hasMeta = hasMeta || f.Name == "meta"
+	}
+	if hasMeta && rapid.IntRange(0, 2).Draw(t, "composite-label") != 0 {
+		parsed := false
+		for _, st := range c.Q.Stages {
+			parsed = parsed || (st.Kind == "json" && len(st.Labels) == 0 && len(st.Exprs) == 0)
+		}
+		if !parsed {
+			c.Q.Stages = append([]gen.Stage{{Kind: "json"}}, c.Q.Stages...)
+		}
+		mk := func(label string) gen.Stage {
+			op := rapid.SampledFrom([]string{"=", "!=", "=~", "!~"}).Draw(t, label+"-op")
+			val := rapid.SampledFrom([]string{"x", "", `{"user":"bob"}`, "[1,2]"}).Draw(t, label+"-val")
+			if op == "=~" || op == "!~" {
+				val = rapid.SampledFrom([]string{".+", ".*", "x", `\{.*`, ""}).Draw(t, label+"-re")
+			}
+			return gen.Stage{Kind: "labelfilter", Pred: &gen.Pred{Kind: "match", Label: "meta", Op: op, Str: gen.BS(val)}}
+		}
+		c.F = mk("cf")
+		if rapid.Bool().Draw(t, "composite-a") {
+			c.A = mk("ca")
 		}
 	}
 	c.Caps = mockstore.Caps{Label: rapid.IntRange(0, 15).Draw(t, "caps-label"), Line: rapid.IntRange(0, 15).Draw(t, "caps-line")}
